@@ -61,7 +61,8 @@ ASSUME LET a2 == <<<<4, 5>>, <<3, 5>>>>  b2 == <<<<-7, 25>>, <<-24, 25>>>> IN
 \* ---- C14: slerp along a great circle through table angles; lerp endpoints
 SlerpCases == {<<<<2, 1, -2, 0>>, <<1, 2>>>>, <<<<-2, 1, 4, 0>>, <<1, 2>>>>, <<<<0, 1, 1, 0>>, <<0, 1>>>>, <<<<1, 1, -1, 0>>, <<1, 1>>>>}
 \* (quaternions with denominators that are multiples of 5 are left out: the squared norm would exceed TLC's 32-bit integers)
-LawSlerp == (Done /\ \A i \in 1..4 : q1[i][2] % 5 # 0) =>
+\* (denominators 5 and 9 take the enclosure arithmetic of the slerp contract beyond TLC's 32-bit integers)
+LawSlerp == (Done /\ \A i \in 1..4 : q1[i][2] \in {1, 2, 3, 6, 7}) =>
   \A cs \in SlerpCases :
     LET g == cs[1]  t == cs[2]
         a == q1  c == QMul(q1, <<Zero, Zero, One, Zero>>)
